@@ -19,7 +19,7 @@ extent-length function for writer, reader, retirement, recovery and migration); 
 followed by reserve_sector and disk_usage += and every release of an owned extent by disk_usage -=; flush_all / Drop
 persist loads of record_count / disk_usage. Not decided: the partition invariant itself at quiescent points.
 """
-DECIDED = ['a retirement that could not finish is put back; the shared retirement queue is only added to (shared with C19.retire)', 'journal slots alternate on every journal record so a torn write falls back to the record before it (shared with C04.position)', "a scrubbed run is released with the sum of its members' own extent lengths", "(a) who allocates / releases", "(b,c) release after durable marker and with no reader; dirty reservations only after scrub",
+DECIDED = ['every accepted mutation is handed to the write buffer (a replacement together with the generation it replaced) unless store configuration says there is no device; no record state is consulted at enqueue time (shared with C19.handoff)', 'a retirement that could not finish is put back; the shared retirement queue is only added to (shared with C19.retire)', 'journal slots alternate on every journal record so a torn write falls back to the record before it (shared with C04.position)', "a scrubbed run is released with the sum of its members' own extent lengths", "(a) who allocates / releases", "(b,c) release after durable marker and with no reader; dirty reservations only after scrub",
            "(d) one extent-length function", "(e) disk_usage accounting and what is persisted",
            'reservation word: sector bits below the flag bits for every accepted device size; flag helpers touch one bit; closed writer set',
            'allocator size index and start index are mutated for the same run (shared with C06.pair)',
@@ -521,7 +521,14 @@ def check_retire_queue(ctx):
     C19.check_queue_writers(ctx, "C05.retire-queue/ops")
 
 
+def check_handoff(ctx):
+    """a replaced generation whose write is in flight still gets its Delete entry: the extent it is about to own is retired and released, not leaked (rules.common.check_handoff, shared with C19.handoff)"""
+    from rules.common import check_handoff as ch
+    ch(ctx, "C05.handoff")
+
+
 def check(ctx):
+    check_handoff(ctx)
     check_retire_queue(ctx)
     check_journal_position(ctx)
     check_allocator_pair(ctx)
